@@ -7,6 +7,7 @@ import (
 	"errors"
 	"fmt"
 	"reflect"
+	"sync"
 	"sync/atomic"
 	"time"
 
@@ -100,7 +101,7 @@ func (l *syncListener) OnSyncStepDone(op string, n uint64, took time.Duration) {
 		wantG--
 	}
 	r.mu.Unlock()
-	if !r.drain(wantN, wantG, 8*time.Second) {
+	if !r.drain(wantN, wantG, 800) {
 		return
 	}
 	r.mu.Lock()
@@ -112,7 +113,24 @@ func (l *syncListener) OnReorg(n uint64) {
 	l.rec.add(entry{Kind: eOnReorg, Num: n})
 }
 
+const convergedAfter = 20  // honest latest answers at the tip before the run is declared converged
 const quiescentAfter = 150 // honest, undelayed latest answers without any commit in between
+
+// beats is a process-wide heartbeat (one per 10 ms when the process gets CPU): deadlines are
+// counted in beats, so a starved or paused process does not turn into a reported hang.
+var beats atomic.Int64
+var beatOnce sync.Once
+
+func startHeartbeat() {
+	beatOnce.Do(func() {
+		go func() {
+			for {
+				time.Sleep(10 * time.Millisecond)
+				beats.Add(1)
+			}
+		}()
+	})
+}
 
 // hangs counts cases that ran into the wall-clock deadline; after a few of them the remaining
 // cases are skipped (a broken synchroniser would otherwise cost a minute per case).
@@ -226,7 +244,8 @@ func runScenario(sc Scenario) (out *outcome) {
 	}()
 
 	final := chains[len(chains)-1]
-	deadline := time.Now().Add(40 * time.Second)
+	startHeartbeat()
+	deadline := beats.Load() + 4000 // 40 s of a healthy process
 	tick := time.NewTicker(200 * time.Microsecond)
 	lastCommit := -1
 loop:
@@ -247,7 +266,9 @@ loop:
 			lastCommit = lc
 			src.honestLatest.Store(0)
 		}
-		if src.stable() && atTip {
+		// at the tip AND the fetcher for the next height has been asking in vain for a while: whatever
+		// was still queued in the pipeline when the tip was reached has been dealt with
+		if src.stable() && atTip && src.honestLatest.Load() >= convergedAfter {
 			out.converged = true
 			break
 		}
@@ -255,7 +276,7 @@ loop:
 			out.quiescent = true
 			break
 		}
-		if time.Now().After(deadline) {
+		if beats.Load() > deadline {
 			out.hang = "no convergence and no quiescence within 40 s"
 			break
 		}
@@ -276,7 +297,7 @@ loop:
 	rec.mu.Lock()
 	wantN, wantG := rec.stores, rec.reorgsOwed
 	rec.mu.Unlock()
-	if !rec.drain(wantN, wantG, 3*time.Second) {
+	if !rec.drain(wantN, wantG, 300) {
 		out.drainLost = true
 	}
 	rec.mu.Lock()
